@@ -100,6 +100,8 @@ where E: Send + 'static
     fn ready_event(&mut self) -> Option<E> {
         let now = Instant::now();
         self.enque_timers();
+        #[cfg(feature = "verif-hooks")]
+        crate::util::verif::sync_point("events.ready_event.folded");
         if let Ok(priority_event) = self.priority_receiver.try_recv() {
             return Some(priority_event);
         }
